@@ -1011,3 +1011,14 @@ def _MaskedLO(it, ctx, a, k):
     r.meta["masked_rows_cols"] = (a[1], a[2])
     r.meta["masked_base"] = a[0]
     return r
+
+
+@op("torch.nn.functional.one_hot")
+def _one_hot(it, ctx, a, k):
+    """one_hot(t, num_classes)[..., c] = 1 if t[...] == c else 0 (int64); num_classes must be given (the data-dependent default is not modelled)"""
+    t = as_tensor(a[0]).frozen()
+    nc = a[1] if len(a) > 1 else k.get("num_classes")
+    if not isinstance(nc, VNum):
+        raise Undecided("one_hot without num_classes")
+    na = t.natoms()
+    return VTensor(list(t.dims) + [E.Dim([nc.t])], lambda idx: z3.If(t.elem(idx[:na]) == idx[na], z3.IntVal(1), z3.IntVal(0)), "int")
